@@ -87,6 +87,25 @@ def behaviours(module, cfg, num, depth, seed, workers=4, timeout=900):
     return result, (violated.group(1) if violated else None), out
 
 
+def enumerate_behaviours(module, cfg, workers=8, timeout=3000):
+    """
+    Exhaustive enumeration: every behaviour of the slice up to its Depth constant (run without
+    VIEW, so that different input histories are different states; the Emit constraint prints the
+    history of every state at the last level).
+    """
+    status, out = common.run_tlc(module, cfg, workers=workers, timeout=timeout, heap="12g")
+    violated = _VIOL.search(out)
+    result = []
+    for line in out.splitlines():
+        match = _BEH.match(line)
+        if match:
+            result.append(json.loads(json.loads('"' + match.group(1) + '"')))
+    if not result and not violated:
+        raise common.MachineryError("TLC enumeration produced no behaviour (%s/%s):\n%s"
+                                    % (module, cfg, out[-2000:]))
+    return result, (violated.group(1) if violated else None)
+
+
 def sample(behs, count, seed):
     """Seeded sample; behaviours produced by one walk share a prefix, so spread the picks."""
     rng = random.Random(seed)
